@@ -323,7 +323,7 @@ def write_ndjson(path, rows):
 # ---------------- generic "recorded cases -> TLC trace spec" validation
 
 def validate_cases(ctx, module, cfg, recfile, sig, label, rerun=None, sigv=None, input_keys=None, observed_keys=None,
-                   nontrivial=None, timeout=1500, env=None, count_traces=True, workers=None):
+                   nontrivial=None, timeout=1500, env=None, count_traces=True, workers=None, skip_invariants=()):
     """Validate recorded cases (ndjson, one case per line) with a TLC trace spec whose states carry `ci`
     (1-based case index). Each violated case is re-run through the real code (rerun(case)->recorded case)
     and re-validated alone before it is reported (DESIGN 2.4c)."""
@@ -352,6 +352,9 @@ def validate_cases(ctx, module, cfg, recfile, sig, label, rerun=None, sigv=None,
         if ci in seen:
             continue
         seen.add(ci)
+        if v["name"] in skip_invariants:
+            ctx.cov["skipped_out_of_scope"] = ctx.cov.get("skipped_out_of_scope", 0) + 1
+            continue
         c = cases[ci - 1]
         inp = {k: c[k] for k in (input_keys or c.keys()) if k in c}
         rec = c
